@@ -206,20 +206,24 @@ class BlockNode(Node):
                 template_name=stack_item.source_name,
             )
 
+        drop = BlockDrop(
+            token=self.token,
+            context=context,
+            buffer=buffer,
+            name=self.name,
+            parent=stack_item.parent,
+        )
+
         ctx = context.copy(
             token=self.token,
-            namespace={
-                "block": BlockDrop(
-                    token=self.token,
-                    context=context,
-                    buffer=buffer,
-                    name=self.name,
-                    parent=stack_item.parent,
-                )
-            },
+            namespace={"block": drop},
             carry_loop_iterations=True,
             block_scope=True,
         )
+
+        # `block.super` is rendered where it is used, inside this block. Loops around
+        # it and variables assigned before it count.
+        drop.context = ctx
 
         return stack_item.block.block.render(ctx, buffer)
 
@@ -260,20 +264,24 @@ class BlockNode(Node):
                 template_name=stack_item.source_name,
             )
 
+        drop = BlockDrop(
+            token=self.token,
+            context=context,
+            buffer=buffer,
+            name=self.name,
+            parent=stack_item.parent,
+        )
+
         ctx = context.copy(
             token=self.token,
-            namespace={
-                "block": BlockDrop(
-                    token=self.token,
-                    context=context,
-                    buffer=buffer,
-                    name=self.name,
-                    parent=stack_item.parent,
-                )
-            },
+            namespace={"block": drop},
             carry_loop_iterations=True,
             block_scope=True,
         )
+
+        # `block.super` is rendered where it is used, inside this block. Loops around
+        # it and variables assigned before it count.
+        drop.context = ctx
         return await stack_item.block.block.render_async(ctx, buffer)
 
     def children(
